@@ -80,10 +80,20 @@ MClose ==
   /\ hst' = [h \in Handles |-> IF table[hid[h]] = h THEN "closed" ELSE hst[h]]
   /\ UNCHANGED <<table, nh, hid, inbox, sent, blocked>>
 
-TNext == \/ \E i \in Ids : Open(i) \/ Send(i)
+\* Open(id) once the multiplexer is closed: refused, no connection comes into being.  (D15: the code used to create one
+\* that nobody would ever close - LateOpenAsWas, kept as the negative control of NothingOpenAfterClose: TSpecAsWas.)
+OpenRefused(id) == mclosed /\ UNCHANGED tvarsM
+LateOpenAsWas(id) ==
+  /\ mclosed /\ table[id] = 0 /\ nh < MaxH /\ nh' = nh + 1
+  /\ table' = [table EXCEPT ![id] = nh + 1]
+  /\ hid' = Append(hid, id) /\ hst' = Append(hst, "open") /\ inbox' = Append(inbox, <<>>)
+  /\ UNCHANGED <<sent, mclosed, blocked>>
+
+TNext == \/ \E i \in Ids : Open(i) \/ Send(i) \/ OpenRefused(i)
          \/ \E h \in Handles : CloseH(h) \/ ReadData(h) \/ ReadErr(h)
          \/ MClose \/ Unblock
 TSpecM == TInit /\ [][TNext]_tvarsM
+TSpecAsWas == TInit /\ [][TNext \/ \E i \in Ids : LateOpenAsWas(i)]_tvarsM
 
 \* ------------------------------------------------------------- properties --
 \* the connection an application holds open is the one frames are routed to
